@@ -28,3 +28,13 @@ func OnceEnter(any) {}
 
 // OnceExit ends the bracket opened by OnceEnter.
 func OnceExit(any) {}
+
+// HashKeys returns the keys of m. Loops over hash-keyed maps whose iteration
+// order leaks into the order of I/O go through it.
+func HashKeys[V any](m map[plumbing.Hash]V) []plumbing.Hash {
+	keys := make([]plumbing.Hash, 0, len(m))
+	for k := range m {
+		keys = append(keys, k)
+	}
+	return keys
+}
